@@ -22,6 +22,9 @@ def holdsAll (c : Case) (nch : Nat) (t : List Ev) : List (String × Bool) :=
    -- "no poll unwinds unless a child panicked in it, no waker invocation panics": the part of
    -- C01 every functional check also evaluates (a panic is never an acceptable answer)
    ("NP", c01NoPanic t),
+   -- "not stuck": the harness's fair wake-only executor (profile `drain`) logs `answer 98 0` when the
+   -- combinator is still Pending although the task was not woken and no child is waiting
+   ("LV", !t.any (· == .answer 98 0)),
    ("C02", holds_C02 (!c.fam.isGroup) nch t),
    ("C03", holds_C03 c.fam.isGroup t)]
   ++ (if c.inC16 then [("C16", holds_C16 t)] else [])
